@@ -58,6 +58,9 @@ class Conn(object):
 
 class Downstream(object):
 
+    lenient_data = False      # True (vf.c11_downstream): DATA is answered by the script (354) even when the MAIL
+                              # was refused / no recipient was accepted
+
     def __init__(self, script=None, lmtp=False, pipelining=True, extensions=(b'8BITMIME',),
                  tls_context=None, auth=False, stall_event=None, idle_stage=False):
         self.script = script or {}
@@ -270,12 +273,13 @@ class Downstream(object):
                     if self.positive(a):
                         txn['rcpts_accepted'].append(addr)
                 elif verb == b'DATA':
-                    if txn is None or txn.get('done') or not txn['mail_ok']:
+                    lenient = self.lenient_data and txn is not None and not txn.get('reset')
+                    if (txn is None or txn.get('done') or not txn['mail_ok']) and not lenient:
                         f.write(b'503 5.5.1 DATA without MAIL\r\n')
                         f.flush()
                         continue
                     a = self.action(ctx, 'data')
-                    if not txn['rcpts_accepted'] and a[0] == 'ok':
+                    if not txn['rcpts_accepted'] and a[0] == 'ok' and not lenient:
                         f.write(b'503 5.5.1 no valid recipients\r\n')
                         f.flush()
                         txn['done'] = True
